@@ -24,7 +24,7 @@ ASSUMPTIONS = [
 
 def cases(tier):
     out = []
-    reps = 6 if tier == "quick" else 150
+    reps = 6 if tier == "quick" else 800
     for g in GROUPS:
         for r in range(reps):
             out.append((g, r))
